@@ -28,7 +28,7 @@ man={"version":1,
  "setup_cmd":"cd /verif && ./setup.sh",
  "hooks":{"guard":"verif","enable":"contracts are comment-only files /repo/<pkg>/zz_contracts_verif.go with //go:build verif; gowp loads /repo with -tags=verif. No executable hook code exists.","baseline_off_cmd":"cd /repo && GOFLAGS=-mod=mod GOPROXY=off go test -vet=off -count=1 ./...","source_commits":hook_commits,"add_only":True},
  "engines":[{"name":"gowp","path":"/verif/gowp","serves_properties":[c['property_id'] for c in checks],"kind_free_text":"contract-based deductive verifier for Go written for this repository: symbolic execution of the real function bodies (go/ast + go/types, loaded from /repo on every run) against //@ contracts kept in guarded comment files; one SMT obligation per contract clause, loop invariant, call precondition, run-time-panic site and frame; discharged by z3 5.1.0, z3 4.8.12 and cvc5 1.0 (plus a purified QF_NRA abstraction for polynomial identities)"},
-  {"name":"bounded-standins","path":"/verif/bounded","serves_properties":["C02","C03","C04","C05","C06","C07","C08","C09","C10","C11","C12","C13","C14","C15","C16","C18","C19","C20"],"kind_free_text":"bounded stand-ins for code and clauses outside the verifier's reach (assumed contracts makeUmemo, LinearLeastSquares, betacf/gammaInc kernels; numerical-accuracy clauses of C05/C06/C08; the dispatch/Rand wrappers; SCC, Euler.Visit, SimplifyMulti, Dot; the schedule clause of C20 under the race detector; relational clauses of C03/C04/C09/C10/C11/C13/C14/C15/C16; the definition of dominance for C19): in-package Go tests injected with go test -overlay and run against /repo's current tree after the obligations; reported under coverage.bounded, labelled bounded, never counted as proved"}],
+  {"name":"bounded-standins","path":"/verif/bounded","serves_properties":["C01","C02","C03","C04","C05","C06","C07","C08","C09","C10","C11","C12","C13","C14","C15","C16","C17","C18","C19","C20"],"kind_free_text":"bounded stand-ins for code and clauses outside the verifier's reach (assumed contracts makeUmemo, LinearLeastSquares, betacf/gammaInc kernels; numerical-accuracy clauses of C05/C06/C08; the dispatch/Rand wrappers; SCC, Euler.Visit, SimplifyMulti, Dot; the schedule clause of C20 under the race detector; relational clauses of C03/C04/C09/C10/C11/C13/C14/C15/C16; the definition of dominance for C19): in-package Go tests injected with go test -overlay and run against /repo's current tree after the obligations; reported under coverage.bounded, labelled bounded, never counted as proved"}],
  "checks":checks,
  "not_applicable":na,
  "notes":"See DESIGN.md. KNOWN_FINDINGS lists repaired defects (fixed:) and recorded findings (finding:)."}
